@@ -92,6 +92,18 @@ func TestC07Worker(t *testing.T) {
 	initRunner(sandbox)
 	_ = os.Chdir(sandbox)
 
+	// Warm-up, not timed: the first execution in each mode pays one-time costs (auto-import of the runtime
+	// packages, type initialisation). On a loaded machine that alone can exceed the per-input watchdog, and a
+	// child that dies on its first input would make its successor pay the same cost again.
+	for _, m := range modes {
+		w := "import \"fmt\"\nfunc main() {\n fmt.Println(1)\n}\n"
+		if m == "test" {
+			w = "@test \"warm\"\n{\n @assert true\n}\n"
+		}
+
+		_ = runInput(m, w)
+	}
+
 	prog, err := os.OpenFile(filepath.Join(dir, "progress.log"), os.O_APPEND|os.O_CREATE|os.O_WRONLY, 0o644)
 	if err != nil {
 		t.Fatal(err)
@@ -919,20 +931,20 @@ func TestC07(t *testing.T) {
 
 		if vh.Tier() == "thorough" {
 			for i, k := range nestKinds {
-				ins = append(ins, &c07Input{Name: fmt.Sprintf("nestL-%02d", i), Mode: "run", Origin: "nest:" + k + ":100000", Op: "nest", src: deepNest(k, 100000), WdMs: 600000})
+				ins = append(ins, &c07Input{Name: fmt.Sprintf("nestL-%02d", i), Mode: "run", Origin: "nest:" + k + ":100000", Op: "nest", src: deepNest(k, 100000), WdMs: 240000})
 			}
 		}
 
 		var wg sync.WaitGroup
 
-		chunk := (len(ins) + workers - 1) / workers
-		for w := 0; w < workers; w++ {
-			lo, hi := w*chunk, (w+1)*chunk
-			if hi > len(ins) {
-				hi = len(ins)
-			}
+		// round-robin, so that the slow inputs (deep nesting) are spread over all workers
+		parts := make([][]*c07Input, workers)
+		for i, in := range ins {
+			parts[i%workers] = append(parts[i%workers], in)
+		}
 
-			if lo >= hi {
+		for w := 0; w < workers; w++ {
+			if len(parts[w]) == 0 {
 				continue
 			}
 
@@ -943,7 +955,7 @@ func TestC07(t *testing.T) {
 
 				dir := filepath.Join(root, fmt.Sprintf("base-w%d", w))
 				record(dir, br.runBatch(dir, part))
-			}(w, ins[lo:hi])
+			}(w, parts[w])
 		}
 
 		wg.Wait()
